@@ -726,7 +726,7 @@ func (g *cbG) action0(depth int) []string {
 }
 
 var cbPlaces = []string{"plain", "plain", "try-catch", "try-catch", "try-finally", "try-catch-finally", "in-catch", "in-finally", "in-finally-pending",
-	"fn", "fn-try-outer", "loop-try", "deep", "pending-temps", "closure-in-finally"}
+	"fn", "fn-try-outer", "loop-try", "deep", "pending-temps", "closure-in-finally", "pending-through-finally-with-nested-try", "pending-through-finally-with-nested-try"}
 
 // placed wraps the action statements.
 func (g *cbG) placed(depth int, act []string) []string {
@@ -764,6 +764,12 @@ func (g *cbG) placed(depth int, act []string) []string {
 		return wrap([]string{fmt.Sprintf("var rec%d", u), fmt.Sprintf("rec%d = func(n) {", u), fmt.Sprintf("\tif n < %d { return [n, rec%d(n + 1)] }", d, u)}, act, "\treturn 0", "}", fmt.Sprintf("rec%d(0)", u))
 	case "pending-temps":
 		return wrap([]string{fmt.Sprintf("t%d := [1, 2, 3, func() {", u)}, act, "\treturn 4", "}()]")
+	case "pending-through-finally-with-nested-try":
+		// whatever the action raises is pending while the finally block runs a try statement of its
+		// own that completes normally; "@after:U" without "@done:U" means the pending failure was lost
+		return wrap([]string{"try {", "\ttry {"}, tab(append(append([]string{}, act...), fmt.Sprintf("L(\"@done:%d\")", u))),
+			"\t} finally {", "\t\ttry {", fmt.Sprintf("\t\t\tL(\"@inner:%d\")", u), "\t\t} finally {", fmt.Sprintf("\t\t\tL(\"@inner-fin:%d\")", u), "\t\t}", "\t}",
+			fmt.Sprintf("\tL(\"@after:%d\")", u), "} catch e {", "\tL(\"@caught\")", "}")
 	case "closure-in-finally":
 		return wrap([]string{fmt.Sprintf("c%d := 0", u), "try {", "\tthrow \"first\"", "} catch e {", "\tL(\"@caught\")", "} finally {", fmt.Sprintf("\tfunc() { c%d++ }()", u)}, act, "}")
 	}
